@@ -132,7 +132,7 @@ theorem LInv.createSingleFace {s : St} (hs : LInv s) (e : Nat) (h : s.singleFace
     LInv (s.createSingleFaceBetweenEdgeAndNext e).1 := by
   unfold St.singleFaceOK at h
   simp only [Bool.and_eq_true, decide_eq_true_eq] at h
-  obtain ⟨⟨⟨h1, h2⟩, h3⟩, h4⟩ := h
+  obtain ⟨⟨⟨⟨h1, h2⟩, h3⟩, h4⟩, _⟩ := h
   rw [createSingleFace_eq]
   exact hs.csCore e () h1 h2 h3 h4
 
@@ -167,7 +167,7 @@ theorem LInv.insertOutside {s : St} (hs : LInv s) (e : Nat) (p : Pt) (d : Nat)
   unfold St.outsideOK at h
   unfold St.insertOutsideOfConvexHull
   have c0 : decide (e < s.nE) = true ∧ decide (s.fc e = 0) = true := by
-    simp only [Bool.and_eq_true] at h; exact ⟨h.1.1, h.1.2⟩
+    simp only [Bool.and_eq_true] at h; exact ⟨h.1.1.1, h.1.1.2⟩
   have c := hs.cnCore e p d (of_decide_eq_true c0.1) (of_decide_eq_true c0.2)
   rw [← createNewFace_eq] at c
   generalize hc : s.createNewFaceAdjacentToEdge e p d = r at *
@@ -303,9 +303,10 @@ theorem LInv.insertM {s t : St} (hs : LInv s) (p : Pt) (d hint v : Nat)
         · simp at h
         · rename_i e hl
           rw [hl] at side
+          simp only [Bool.and_eq_true] at side
           have ht : (s.insertOutsideOfConvexHull e p d).1 = t := congrArg Prod.fst (Option.some.inj h)
           rw [← ht]
-          exact hs.insertOutside e p d side
+          exact hs.insertOutside e p d side.2
         · rename_i f hl
           have := hs.locateM_ans p hint _ hl
           have ht : (s.insertIntoFace f p d).1 = t := congrArg Prod.fst (Option.some.inj h)
